@@ -218,6 +218,9 @@ func (m *memRig) certifyAt(s *common.Snapshot, other uint64) *crypto.CosiSignatu
 	}
 	var agg crypto.Key
 	copy(agg[:], sum.Bytes())
+	if os.Getenv("VERIF_DEBUG") != "" {
+		fmt.Fprintf(os.Stderr, "certifyAt chain %s round %d ts %d other %d (delta %d s) now %d keys then %d keys Tthen %d Tnow %d perm %v\n", s.NodeId.String()[:6], s.RoundNumber, s.Timestamp, other, (int64(other)-int64(s.Timestamp))/1e9, len(now), len(then), T, ref.Node.ConsensusThreshold(s.Timestamp, true), perm)
+	}
 	return &crypto.CosiSignature{Signature: agg.Sign(s.PayloadHash()), Mask: maskOf(perm)}
 }
 
